@@ -29,6 +29,33 @@ def _cfg(tier):
 @st.composite
 def case(draw, tier):
     sc = draw(S.script(_cfg(tier)))
+    if draw(st.integers(0, 2)) == 0:
+        # three or four distinct registers in one nested argument (positional and keyword)
+        nums = draw(st.lists(st.one_of(st.integers(0, 12), st.integers(0, 300)), min_size=3, max_size=4, unique=True))
+        sy = [A.Operand("", A.Reg("q%d" % n)) for n in nums]
+        last = sy[3] if len(sy) > 3 else sy[0]
+        nested = draw(st.sampled_from([
+            A.Flat([A.Operand("", A.Paren(A.Flat([sy[0], sy[1]], ["+"]))), sy[2], last], ["*", "-"]),
+            A.Flat([sy[0], sy[1], sy[2], last], ["*", "+", "*"]),
+            A.Flat([last, A.Operand("", A.Paren(A.Flat([sy[2], sy[0]], ["-"]))), sy[1], A.Operand("", A.Num("float", "0.5"))], ["*", "+", "*"])]))
+        kw = [["phi", A.Flat([sy[2], A.Operand("", A.Paren(A.Flat([sy[1], sy[0]], ["-"]))), last], ["*", "+"])]] if draw(st.booleans()) else []
+        sc.items.append(A.Stmt("Nested", A.Args([nested], kw, False), [S.F1(A.Num("int", "0"))], "", ""))
+    if draw(st.integers(0, 3)) == 0:
+        # twin expressions that differ only by -1 vs -2 (CPython: hash(-1) == hash(-2))
+        r1, r2 = draw(st.integers(0, 9)), draw(st.integers(10, 19))
+        a, b = A.Operand("", A.Reg("q%d" % r1)), A.Operand("", A.Reg("q%d" % r2))
+        form = draw(st.integers(0, 2))
+        pair = []
+        for c_ in ("1", "2"):
+            k = A.Operand("", A.Num("int", c_))
+            if form == 0:
+                e = A.Flat([A.Operand("-", A.Num("int", c_)), a], ["*"])                      # -1*q / -2*q
+            elif form == 1:
+                e = A.Flat([a, k, b], ["-", "*"])                                             # q - 1*r / q - 2*r
+            else:
+                e = A.Flat([A.Operand("", A.Num("int", "1")), b, k], ["/", "**"])             # 1/r**1 / 1/r**2
+            pair.append(A.Stmt("Twin", A.Args([e], [], False), [S.F1(A.Num("int", "0"))], "", ""))
+        sc.items.extend(pair)
     return {"script": sc, "layout": draw(K.layout_light())}
 
 
